@@ -63,9 +63,11 @@ def classify(hexpdu):
 
 
 def conn_valid(p):
+    """LL_CONNECTION_UPDATE_IND parameters the link layer runs with (Core Spec ranges + what
+    check_timing_paremeters accepts since fix timing-01)"""
     ws, wo, iv, to = p["ws"] * 1250, p["wo"] * 1250, p["iv"] * 1250, p["to"] * 10000
-    return (wo <= iv and ws <= 10000 and ws <= iv and 100000 <= to <= 32000000
-            and (p["lat"] + 1) * 2 * iv <= to and p["lat"] <= 499)
+    return (6 <= p["iv"] <= 3200 and 1 <= p["ws"] and ws <= 10000 and ws <= iv and wo <= iv
+            and 100000 <= to <= 32000000 and p["lat"] <= 499 and to > (p["lat"] + 1) * 2 * iv)
 
 
 STATE_RE = re.compile(r"(\w+)=(\S+)")
@@ -116,6 +118,7 @@ def monitor(ops, outs):
     if prev is None or prev["adv"]:
         return None
     queue, pend, applied_at = [], None, None
+    listen_always = ops[0].split()[1] == "1"
     for k in range(1, min(len(ops), len(outs))):
         op, cur = ops[k].split(), parse_state(outs[k])
         if cur is None:
@@ -163,7 +166,13 @@ def monitor(ops, outs):
                 if op[0] == "to" and cur["reason"] == 8:
                     return None                                       # supervision timeout
                 if exp is None:
-                    return None                                       # invalid parameters end the link at the instant
+                    # refused parameters end the link, but only in the callback that plans the event at the instant
+                    ahead = 1 if (op[0] == "to" or listen_always) else prev["lat"] + 1
+                    if op[0] in ("ev", "to") and (inst - prev["E"]) % W <= ahead:
+                        return None
+                    return (k, "C21:conn-link-ended-before-instant",
+                            "op %d `%s`: link ended (`%s`) before the instant %d of the pending Connection Update (event %d planned)"
+                            % (k, ops[k][:40], outs[k], inst, prev["E"]))
                 return k, "C21:%s-link-ended-while-pending" % kind, "op %d `%s`: link ended (`%s`) while %s with instant %d was pending" % (k, ops[k][:40], outs[k], kind, inst)
             if cur["E"] == inst:
                 if cur["pend"] == 1 and cur["inst"] == inst:
@@ -230,16 +239,19 @@ def gen_proc(rng, inst, valid=True):
     if r < 0.4:
         iv = rng.choice([6, 8, 24, 40, 100, 400, rng.randrange(6, 800)])
         lat = rng.choice([0, 0, 1, 2, 5, rng.randrange(0, 8)])
-        lo = -(-(lat + 1) * 2 * iv * 1250 // 10000)
+        lo = (lat + 1) * 2 * iv * 1250 // 10000 + 1          # smallest timeout strictly above (1+latency)*interval*2
         to = min(3200, max(10, lo) + rng.choice([0, 0, 1, 10, 100]))
         ws, wo = rng.randrange(1, min(8, iv) + 1), rng.randrange(0, iv + 1)
         if not valid:
-            which = rng.randrange(5)
-            if which == 0: to = max(1, lo - 1) if lo > 10 else 9
+            which = rng.randrange(8)
+            if which == 0: to = max(1, lo - 1) if lo > 11 else 9        # equality / just below
             elif which == 1: lat, iv = 500 + rng.randrange(50), min(iv, 100)
             elif which == 2: wo = iv + 1 + rng.randrange(5)
             elif which == 3: ws = min(255, iv + 1) if iv < 8 else 9
-            else: to = 3201 + rng.randrange(100)
+            elif which == 4: to = 3201 + rng.randrange(100)
+            elif which == 5: iv, ws, wo = rng.choice([0, 1, 5]), 1, 0
+            elif which == 6: iv = 3201 + rng.randrange(100); to = 3200
+            else: ws = 0
         return pdu_conn_update(ws, wo, iv, lat, to, inst)
     if r < 0.75:
         m = rng.getrandbits(40) if valid else rng.choice([0, 1 << rng.randrange(37), (1 << 37) | (1 << 38) | 1])
@@ -420,11 +432,11 @@ PROPS = {
         run=run_c21,
         level="proof",
         technique="Lean 4 invariant proof over all histories of connection events / lost events / event cancelations with 16-bit wrap-around arithmetic + differential correspondence with the real link_layer<> on test_radio",
-        level_text="Theorems over every connEventCounter, instant (mod 65536), peripheral latency, listen decision, lost event and cancelation history: an indication is either refused with Instant Passed or becomes pending with 0 < distance < 32767; while pending the parameters in force do not change, every planned event lies before the instant, the distance strictly decreases with every event, and the step that plans the event whose counter equals the instant applies exactly the carried parameters (or the link ends by supervision timeout / invalid parameters); the model is the patched code (fixes instants-01..03).",
+        level_text="Theorems over every connEventCounter, instant (mod 65536), peripheral latency, listen decision, lost event and cancelation history: an indication is either refused with Instant Passed or becomes pending with 0 < distance < 32767; while pending the parameters in force do not change, every planned event lies before the instant, the distance strictly decreases with every event, and the step that plans the event whose counter equals the instant applies exactly the carried parameters, or - for a Connection Update whose parameters check_timing_paremeters refuses - ends the link in exactly that step (or the link ends earlier by supervision timeout); the model is the patched code (fixes instants-01..03, parameter check of timing-01 imported from BluetoeModel.Timing).",
         level_note="Trusted: Lean kernel + standard axioms; model = code as far as the differential check samples it (state lines after every connection event); radio timing (transmit windows) is not part of the model; the counter is poked to reach the wrap-around (one unpoked 65536-event session in the thorough tier). The termination of a Connection Update whose instant is the next event (pinned by the repository test connection_update_request_invalid_instance) stays a known finding.",
         design_ref="§5 C21",
         assumptions=["test_radio as the scheduled radio (disarm_connection_event always succeeds with 0 remaining time)",
-                     "connection parameters of a Connection Update within the range where delta_time arithmetic does not overflow (interval <= 1 s in the generator)",
+                     "connection parameters are checked by check_timing_paremeters with fix timing-01 (range checks first, so the delta_time product can not overflow); validity is BluetoeModel.Timing.parseUpdate",
                      "no LLID 1 (continuation) PDUs: with the default MTU they are never consumed by handle_received_data (reported to C15/C19)"],
     ),
 }
